@@ -223,6 +223,13 @@ func runC19(c *core.Ctx) {
 		t := dyn.Types[typeIDs[(ci+c.Batch)%len(typeIDs)]]
 		ch := []int{1, 2, 3, 8}[r.Intn(4)]
 		frames := r.Range(24, 96)
+		large := ci%8 == 5
+		if large {
+			// more than 65536 samples: paths that depend on the amount of data
+			ch = 2 + r.Intn(2)
+			frames = r.Range(33000, 36000)
+		}
+		asWindow := ci%2 == 1 // the shared buffer is itself a Slice view of a larger buffer
 		procs := []int{1, 4, 16}[(ci/2)%3]
 		R := r.Range(2, 16)
 		W := r.Range(1, 8)
@@ -240,7 +247,10 @@ func runC19(c *core.Ctx) {
 				e.convsD = append(e.convsD, cv)
 			}
 		}
-		cfgD := map[string]any{"type": t.Name, "channels": ch, "frames": frames, "GOMAXPROCS": procs, "readers": R, "writers": W, "build": c.Mode}
+		if large {
+			R, W = min(R, 4), min(W, 3)
+		}
+		cfgD := map[string]any{"type": t.Name, "channels": ch, "frames": frames, "GOMAXPROCS": procs, "readers": R, "writers": W, "build": c.Mode, "shared_buffer_is_a_slice_view": asWindow}
 		runtime.GOMAXPROCS(procs)
 		yield := func(rr *core.Rand) func() {
 			return func() {
@@ -255,11 +265,23 @@ func runC19(c *core.Ctx) {
 			}
 		}
 		mk := func() dyn.Buf {
+			if asWindow {
+				p := t.Alloc(signal.Allocator{Channels: ch, Length: frames + 3, Capacity: frames + 8})
+				c19Fill(p, t)
+				return p.Slice(2, 2+frames) // nothing has been called on this view yet
+			}
 			b := t.Alloc(signal.Allocator{Channels: ch, Length: frames, Capacity: frames + 5})
 			c19Fill(b, t)
 			return b
 		}
 		nOps := c.Pick(40, 120)
+		if large {
+			nOps = 12
+			c.Obs("configurations_with_more_than_65536_samples", 1)
+		}
+		if asWindow {
+			c.Obs("configurations_sharing_a_slice_view", 1)
+		}
 		// ---------------- phase A: readers only
 		{
 			shared := mk()
@@ -379,6 +401,8 @@ func runC19(c *core.Ctx) {
 			c.Sample("configuration", cfgD)
 		}
 	}
+	c.Floor("configurations_sharing_a_slice_view", 4)
+	c.Floor("configurations_with_more_than_65536_samples", 1)
 	c.Floor("configurations", 10)
 	c.Floor("writer_operations", 1000)
 	c.Floor("reader_operations", 1000)
